@@ -184,6 +184,14 @@ def validU (w : W) (i : Nat) : Bool := i < w.st.units.length
 
 def handle (w : W) (line : String) : W × String :=
   let f := line.splitOn "\t"
+  -- serialisation ops name the serialiser (pickle2.., copy, json, ...) for the implementation side;
+  -- the model is the constructor re-entry they all end in
+  let f := match f with
+    | ["X", "pload", _how, _k, u] => ["X", "reenter", u]
+    | ["X", "reenter", _how, u] => ["X", "reenter", u]
+    | ["X", "qreenter", _how, q] => ["X", "qreenter", q]
+    | ["X", "qtext", _how, q] => ["X", "qtext", q]
+    | f => f
   let bad : W × String := (w, "BAD")
   let unitOp (o : Op) : W × String :=
     if o.ok w.st then
@@ -246,6 +254,24 @@ def handle (w : W) (line : String) : W × String :=
               | .ok _ => s!"ok\td{showDim v}"
               | .error e => s!"ERR\t{e.name}"))
        | none => bad)
+  | ["N", "pser", _how, p] =>
+      (match parseP p with
+       | some q =>
+         let (t, r) := w.ptab.construct (Pfx.new q.base q.exp) none none
+         (syncNames { w with ptab := t }, match r with
+           | .ok i => (match t.objs[i]? with | some o => s!"ok\tp{showPfx o.key}" | none => "BAD")
+           | .error e => s!"ERR\t{e.name}")
+       | none => bad)
+  | ["N", "dser", _how, d] =>
+      (match parseD d with
+       | some v =>
+         let (t, r) := w.dtab.construct v none none
+         (syncNames { w with dtab := t }, match r with
+           | .ok i => (match t.objs[i]? with | some o => s!"ok\td{showDim o.key}" | none => "BAD")
+           | .error e => s!"ERR\t{e.name}")
+       | none => bad)
+  | ["X", "pdump", _u] => (w, "ok")
+
   | ["N", "pstate"] =>
       let named := sortStrings ((w.ptab.objs.filter (fun o => o.name.isSome || o.sym.isSome)).map
         (fun o => s!"{showPfx o.key}|{o.name.getD "-"}|{o.sym.getD "-"}"))
